@@ -10,6 +10,7 @@ import (
 	"reflect"
 	"strings"
 	"sync"
+	"syscall"
 	"time"
 	"unsafe"
 
@@ -474,7 +475,7 @@ func c13lock(c *Ctx) {
 	nPlan := 12
 	for i := 0; i < nPlan; i++ {
 		var o zsim.Outcome
-		switch c.F.Weighted(6, 1, 1, 1) {
+		switch c.F.Weighted(6, 1, 1, 1, 1) {
 		case 1:
 			o.Err = fmt.Errorf("injected write error #%d", i)
 		case 2:
@@ -483,6 +484,11 @@ func c13lock(c *Ctx) {
 		case 3:
 			o.Short = -1
 			o.Err = fmt.Errorf("injected zero write #%d", i)
+		case 4:
+			// part of the payload taken, then an error that calls itself
+			// temporary: the caller's business, relayed like any other
+			o.Short = 1 + c.F.Draw(12)
+			o.Err = []error{syscall.EAGAIN, syscall.EINTR}[c.F.Draw(2)]
 		}
 		sink.WritePlan = append(sink.WritePlan, o)
 		var se error
